@@ -87,11 +87,11 @@ func check(c Case) ev.Verdict {
 	off := lib.Options{Neg: c.Neg, Esc: true}
 	want := ref.Apply(doc, ops, on.Ref())
 	gotOn := lib.Apply(c.Doc, c.Patch, on)
-	if gotOn.Panic != nil {
-		return ev.Verdict{Err: gotOn.Panic}
-	}
 	if want.OutOfDomain() {
 		return ev.Excluded("out of domain: "+want.Res.Why, "ood")
+	}
+	if gotOn.Panic != nil {
+		return ev.Verdict{Err: gotOn.Panic}
 	}
 	skipped := map[int]bool{}
 	for _, i := range want.Skipped {
